@@ -105,6 +105,7 @@ ObsInit == [
   best     |-> [v \in VB |-> 0],          \* highest seqno that all listed copies have ever reported together under one vbUUID
   gwait    |-> [v \in VB |-> 0 - 1],      \* seqno of the event handed to the observer while the gate was on (-1: none)
   padv     |-> [v \in VB |-> 0 - 1],      \* C05 obligation of that event, due when it takes effect
+  hadv     |-> [v \in VB |-> 0 - 1],      \* C05 obligation of an acknowledgement whose Ack() call has not returned yet (AckHeld .. AckDone)
   psess    |-> [v \in VB |-> 0 - 1],      \* position that event settles when it takes effect (-1: none)
   pdead    |-> [v \in VB |-> FALSE],      \* ... on a stream the library had already closed
   lthr     |-> [v \in VB |-> 0],          \* threshold the observer exposed last
@@ -134,7 +135,8 @@ ApBoot(o, e) ==
             !.streaming = [v \in VB |-> FALSE], !.inpush = [v \in VB |-> FALSE], !.range = {},
             !.adv = [v \in VB |-> 0 - 1], !.conf = [v \in VB |-> StoreSeq(o, v)], !.news = FALSE, !.owned = {},
             !.gate = FALSE, !.tab = [v \in VB |-> <<>>], !.best = [v \in VB |-> 0], !.gwait = [v \in VB |-> 0 - 1],
-            !.padv = [v \in VB |-> 0 - 1], !.psess = [v \in VB |-> 0 - 1], !.pdead = [v \in VB |-> FALSE], !.lthr = [v \in VB |-> 0]]
+            !.padv = [v \in VB |-> 0 - 1], !.psess = [v \in VB |-> 0 - 1], !.pdead = [v \in VB |-> FALSE], !.lthr = [v \in VB |-> 0],
+            !.hadv = [v \in VB |-> 0 - 1]]
 
 ApDied(o, e) == [o EXCEPT !.up = FALSE, !.mustdie = FALSE, !.pend = {}, !.pendopen = {}]
 
@@ -352,6 +354,13 @@ ApAck(o, e) ==
             \* (a reserved-key event may have moved the position past it without flagging it for saving, C14)
             !.adv[v] = IF v \in o.range /\ e.off.seq > @ /\ e.off.seq > MaxOr(o.sess[v], 0 - 1) THEN e.off.seq ELSE @]
 
+\* Ack() was invoked and is still inside the consumer's TrackOffset: the position counts as settled (C05: "settled before that
+\* save began") only when the call has returned - a save that begins in between owes it nothing yet
+ApAckHeld(o, e) ==
+  LET v == e.vb  o1 == ApAck(o, e) IN
+  IF ~o.up THEN o ELSE [o1 EXCEPT !.adv[v] = o.adv[v], !.hadv[v] = IF o1.adv[v] # o.adv[v] THEN o1.adv[v] ELSE 0 - 1]
+ApAckDone(o, e) ==
+  LET v == e.vb IN [o EXCEPT !.adv[v] = IF o.hadv[v] > @ THEN o.hadv[v] ELSE @, !.hadv[v] = 0 - 1]
 
 \* Save()/Commit() was called by thread e.t
 ApSaveCall(o, e) ==
@@ -564,6 +573,12 @@ Apply(o, e) ==
     [] e.ev = "CloseCall"  -> ApCloseCall(o, e)
     [] e.ev = "CloseReturn" -> ApCloseReturn(o, e)
     [] e.ev = "Quiesced"   -> ApQuiesced(o, e)
+    \* (reported by the rig only, at the end of a run that left the specification: the rebalance timers were fired a dozen times
+    \* over - each time the configured delay has elapsed -, every request was answered, nothing was announced, and the stream that a
+    \* rebalance closed is still closed with a timer armed once more. Core.tla: ReopenArmed - in the delay phase the armed timer re-opens)
+    [] e.ev = "Stalled"    -> IF o.up /\ o.phase = "delay" /\ ~o.closeCalled /\ ~o.stoppedSeen
+                              THEN Viol(o, "C11", "the stream was closed for a rebalance and is not reopened however often the configured delay elapses")
+                              ELSE o
     [] e.ev = "Scrape"     -> ApScrape(o, e)
     [] e.ev = "HookScrape" -> Check(o, e.ok, "C16", "a scrape issued from a lifecycle callback crashed or did not return")
     [] e.ev = "Load"       -> ApLoad(o, e)
@@ -577,6 +592,8 @@ Apply(o, e) ==
     [] e.ev = "Report"     -> ApReport(o, e)
     [] e.ev = "Absent"     -> ApAbsent(o, e)
     [] e.ev = "Ack"        -> Touch(ApAck(o, e))
+    [] e.ev = "AckHeld"    -> Touch(ApAckHeld(o, e))
+    [] e.ev = "AckDone"    -> Touch(ApAckDone(o, e))
     [] e.ev = "SaveCall"   -> ApSaveCall(o, e)
     [] e.ev = "SaveBegin"  -> ApSaveBegin(o, e)
     \* the state handed to metadata.Save lacks assigned vBuckets of the session: a backend that stores the state as a whole
